@@ -238,7 +238,7 @@ WF_IDS = "forall(Int, lambda k: implies(G.work_ids[k], k in self.pending_work_it
 
 c = M.contract(f"{EMT}.add_call_item_to_queue", props=["C03"])
 c.param("self", T.Ref(EMT))
-c.requires("ids-queued-are-pending", WF_IDS)
+c.rely("ids-queued-are-pending", WF_IDS, "A-atomic")
 c.ensures("dispatch/ids-queued-stay-pending", WF_IDS)
 c.raises_only("dispatch/no-exception")
 c.modifies("contents(self.pending_work_items)", "contents(self.running_work_items)", "G.work_ids")
@@ -274,8 +274,8 @@ c.rely("manager-shares-the-executor-tables",
        f"{EXEC}._running_work_items is self.running_work_items and "
        f"implies({EXEC}._processes_management_lock is not None, {EXEC}._processes_management_lock is self.processes_management_lock)", "A-alias")
 c.rely("registered-pids-are-live-children", "forall(Int, lambda k: implies(k in self.processes, G.pid_live[k] and self.processes[k].pid == k))", "A-pids")
-c.requires("dispatched-ids-are-running",
-           "implies(not is_int(result_item) and result_item.work_id in self.pending_work_items, mem(self.running_work_items, result_item.work_id))")
+c.rely("dispatched-ids-are-running",
+       "implies(not is_int(result_item) and result_item.work_id in self.pending_work_items, mem(self.running_work_items, result_item.work_id))", "A-atomic")
 # ---- a _ResultItem: the right future, once, nothing else
 RI = "not is_int(result_item)"
 WID = "result_item.work_id"
@@ -355,3 +355,184 @@ i.iter_post("spawn/exit-lock-taken-before-start",
             "ordered('acquire', lambda l: l is log_arg('Process', -1, 0)._worker_exit_lock, 'start', lambda p, pid: True)", prop="C07")
 i.iter_post("spawn/registered-under-its-pid",
             "log_arg('start', 0, 1) in self._processes and self._processes[log_arg('start', 0, 1)] is log_arg('start', 0, 0)", prop="C08")
+
+# ---------------------------------------------------------------- wait_result_broken_or_wakeup (C02)
+c = M.contract(f"{EMT}.wait_result_broken_or_wakeup", props=["C02", "C07"])
+c.param("self", T.Ref(EMT))
+c.returns(T.Tup(T.Union(T.NoneT, T.Int, T.Ref("_ResultItem"), T.Exc()), T.Bool, T.Exc(nullable=True)))
+c.ensures("classify/broken-comes-with-its-error", "implies(result[1], result[2] is not None)", prop="C02")
+W = "log_arg('wait', 0, 0)"
+READY = "log_arg('wait', 0, 1)"
+RR = "self.result_queue._reader"
+WR = "self.thread_wakeup._reader"
+c.ensures("wait-set/contains-result-and-wakeup-readers", f"log_count('wait') == 1 and mem({W}, obj({RR})) and mem({W}, obj({WR}))", prop="C02")
+c.ensures("wait-set/contains-every-worker-sentinel",
+          f"forall(Int, lambda pid: implies(old(pid in self.processes), mem({W}, old(self.processes[pid]).sentinel)))", prop="C02")
+c.ensures("classify/result-or-pid-is-not-broken",
+          "implies(log_count('recv') == 1 and (is_int(log_arg('recv', 0, 1)) or isinstance_(log_arg('recv', 0, 1), _ResultItem)), "
+          "result[0] is log_arg('recv', 0, 1) and result[1] == False and result[2] is None)", prop=["C02", "C07"])
+c.ensures("classify/remote-traceback-breaks-with-cause",
+          "implies(log_count('recv') == 1 and isinstance_(log_arg('recv', 0, 1), _RemoteTraceback), "
+          "result[1] == True and exc_is(result[2], 'BrokenProcessPool') and result[2].__cause__ is log_arg('recv', 0, 1))", prop="C02")
+c.ensures("classify/unreadable-result-breaks",
+          "implies(log_count('recv_raises') == 1, result[0] is None and result[1] == True and exc_is(result[2], 'BrokenProcessPool') "
+          "and exc_is(result[2].__cause__, '_RemoteTraceback'))", prop="C02")
+c.ensures("classify/wakeup-only-is-not-broken",
+          f"implies(not mem({READY}, obj({RR})) and mem({READY}, obj({WR})), result[0] is None and result[1] == False and result[2] is None)", prop="C02")
+c.ensures("classify/sentinel-only-is-a-dead-worker",
+          f"implies(not mem({READY}, obj({RR})) and not mem({READY}, obj({WR})), result[0] is None and result[1] == True and "
+          "exc_is(result[2], 'TerminatedWorkerError') and exc_is(result[2], 'concurrent.futures.process.BrokenProcessPool') and "
+          "log_count('call:get_exitcodes_terminated_worker') == 1 and log_arg('call:get_exitcodes_terminated_worker', 0, 1) is self.processes)", prop="C02")
+c.ensures("classify/reads-result-only-when-ready", f"implies(not mem({READY}, obj({RR})), log_count('recv') + log_count('recv_raises') == 0)", prop="C02")
+c.ensures("wakeup/cleared-on-return", "log_count('call:_ThreadWakeup.clear') == 1 and log_arg('call:_ThreadWakeup.clear', 0, 1) is self.thread_wakeup", prop="C02")
+c.raises_only("classify/no-exception")
+c.modifies()
+c.assumes("A-kernel")
+c.cover("dead-worker", f"not mem({READY}, obj({RR})) and not mem({READY}, obj({WR}))")
+c.cover("result", "log_count('recv') == 1 and isinstance_(log_arg('recv', 0, 1), _ResultItem)")
+c.twin("classify/sentinel-only-is-a-dead-worker", f"implies(not mem({READY}, obj({RR})) and not mem({READY}, obj({WR})), result[1] == False)")
+c.expect(paths=6)
+
+# ---------------------------------------------------------------- is_shutting_down (C05)
+c = M.contract(f"{EMT}.is_shutting_down", props=["C05"])
+c.param("self", T.Ref(EMT))
+c.returns(T.Bool)
+c.ensures("is-shutting-down/definition",
+          "result == (_global_shutdown or ((log_arg('deref', 0, 1) is None or self.executor_flags.shutdown) and self.executor_flags.broken is None))", prop="C05")
+c.ensures("is-shutting-down/reads-once", "log_count('deref') == 1")
+c.raises_only("is-shutting-down/no-exception")
+c.modifies()
+
+# ---------------------------------------------------------------- kill_workers (C02, C06)
+PROCS_EMPTY = "len(self.processes) == 0"
+ALL_KILLED = "forall(Int, lambda k: implies(old(k in self.processes), G.killed[old(self.processes[k])] and G.joined[old(self.processes[k])]))"
+c = M.contract(f"{EMT}.kill_workers", props=["C02", "C06"])
+c.param("self", T.Ref(EMT)).param("reason", T.Str, default=VStr(""))
+c.ensures("kill/no-worker-left-registered", PROCS_EMPTY)
+c.ensures("kill/every-worker-tree-killed-and-reaped", ALL_KILLED)
+c.raises_only("kill/no-exception")
+c.modifies("contents(self.processes)", "G.killed", "G.joined")
+i = M.invariant(f"{EMT}.kill_workers", 0, "while self.processes:")
+i.inv("removed-are-killed", "forall(Int, lambda k: implies(old(k in self.processes) and not (k in self.processes), "
+      "G.killed[old(self.processes[k])] and G.joined[old(self.processes[k])]))")
+i.inv("remaining-are-original", "forall(Int, lambda k: implies(k in self.processes, old(k in self.processes) and self.processes[k] is old(self.processes[k])))")
+i.variant("len(self.processes)")
+
+# ---------------------------------------------------------------- terminate_broken (C02)
+c = M.contract(f"{EMT}.terminate_broken", props=["C02"])
+c.param("self", T.Ref(EMT)).param("bpe", T.Exc())
+ALL_FAILED = ("forall(Int, lambda k: implies(old(k in self.pending_work_items), "
+              "G.fut_exc[old(self.pending_work_items[k]).future] is bpe and "
+              "G.fut_n_exc[old(self.pending_work_items[k]).future] >= old(G.fut_n_exc[old(self.pending_work_items[k]).future]) + 1))")
+c.ensures("terminate/flagged-broken-first", "log_pos('call:_ExecutorFlags.flag_as_broken', 0) == 0 and "
+          "log_arg('call:_ExecutorFlags.flag_as_broken', 0, 1) is self.executor_flags and log_arg('call:_ExecutorFlags.flag_as_broken', 0, 2) is bpe")
+c.ensures("terminate/every-pending-future-fails-with-the-error", ALL_FAILED)
+c.ensures("terminate/no-fabricated-result", "G.fut_n_res == old(G.fut_n_res) and G.fut_res == old(G.fut_res)")
+c.ensures("terminate/nothing-left-pending", "len(self.pending_work_items) == 0")
+c.ensures("terminate/workers-killed-then-internals-joined",
+          "log_count('call:_ExecutorManagerThread.kill_workers') == 1 and log_count('call:_ExecutorManagerThread.join_executor_internals') == 1 and "
+          "log_before('call:_ExecutorManagerThread.kill_workers', 'call:_ExecutorManagerThread.join_executor_internals')")
+c.ensures("terminate/workers-gone", PROCS_EMPTY + " and " + ALL_KILLED)
+c.modifies("self.executor_flags.shutdown", "self.executor_flags.broken", "contents(self.pending_work_items)", "contents(self.processes)",
+           "G.fut_n_exc", "G.fut_exc", "G.killed", "G.joined", "G.sem_released", "G.n_sentinels", "self.thread_wakeup._closed", "G.pid_live")
+c.raises("terminate/only-from-joining-internals", "BaseException")
+c.assumes("A-atomic")
+i = M.invariant(f"{EMT}.terminate_broken", 0, "for work_item in self.pending_work_items.values():")
+i.inv("visited-futures-failed", "forall(Ref('_WorkItem'), lambda w: implies(mem(__seen0, w), G.fut_exc[w.future] is bpe and "
+      "G.fut_n_exc[w.future] >= old(G.fut_n_exc[w.future]) + 1))")
+i.inv("counts-only-grow", "forall(Ref('Future'), lambda f: G.fut_n_exc[f] >= old(G.fut_n_exc[f]))")
+i.inv("no-result-set", "G.fut_n_res == old(G.fut_n_res) and G.fut_res == old(G.fut_res)")
+i.iter_post("only-pending-futures-touched-with-the-error",
+            "log_count('set_exception') == 1 and log_arg('set_exception', 0, 1) is bpe and log_count('set_result') == 0 and "
+            "mem(at_entry(self.pending_work_items.values()), __item) and log_arg('set_exception', 0, 0) is __item.future")
+
+# ---------------------------------------------------------------- flag_executor_shutting_down (C05, C06)
+c = M.contract(f"{EMT}.flag_executor_shutting_down", props=["C05", "C06"])
+c.param("self", T.Ref(EMT))
+KW = "self.executor_flags.kill_workers"
+FAILED_SHUTDOWN = ("forall(Int, lambda k: implies(old(k in self.pending_work_items), "
+                   "exc_is(as_(G.fut_exc[old(self.pending_work_items[k]).future], '<exc>'), 'ShutdownExecutorError') and "
+                   "G.fut_n_exc[old(self.pending_work_items[k]).future] >= old(G.fut_n_exc[old(self.pending_work_items[k]).future]) + 1))")
+c.ensures("shutdown/flagged", "self.executor_flags.shutdown == True and log_pos('call:_ExecutorFlags.flag_as_shutting_down', 0) == 0")
+c.ensures("graceful/touches-no-future-and-no-worker",
+          f"implies(not {KW}, {NO_FUTURE_TOUCHED} and G.killed == old(G.killed) and len(self.pending_work_items) == old(len(self.pending_work_items)) "
+          "and len(self.processes) == old(len(self.processes)))", prop="C05")
+c.ensures("forced/every-pending-future-fails-with-shutdown-error", f"implies({KW}, {FAILED_SHUTDOWN})", prop="C06")
+c.ensures("forced/nothing-left-pending", f"implies({KW}, len(self.pending_work_items) == 0)", prop="C06")
+c.ensures("forced/no-fabricated-result", "G.fut_n_res == old(G.fut_n_res) and G.fut_res == old(G.fut_res)", prop="C06")
+c.ensures("forced/all-workers-killed-and-reaped", f"implies({KW}, {PROCS_EMPTY} and {ALL_KILLED})", prop="C06")
+c.raises_only("shutdown/no-exception")
+c.modifies("self.executor_flags.shutdown", "self.executor_flags.kill_workers", "contents(self.pending_work_items)", "contents(self.processes)",
+           "G.fut_n_exc", "G.fut_exc", "G.killed", "G.joined")
+c.assumes("A-atomic")
+i = M.invariant(f"{EMT}.flag_executor_shutting_down", 0, "while self.pending_work_items:")
+i.inv("removed-futures-failed", "forall(Int, lambda k: implies(old(k in self.pending_work_items) and not (k in self.pending_work_items), "
+      "exc_is(as_(G.fut_exc[old(self.pending_work_items[k]).future], '<exc>'), 'ShutdownExecutorError') and "
+      "G.fut_n_exc[old(self.pending_work_items[k]).future] >= old(G.fut_n_exc[old(self.pending_work_items[k]).future]) + 1))")
+i.inv("remaining-are-original", "forall(Int, lambda k: implies(k in self.pending_work_items, old(k in self.pending_work_items) and "
+      "self.pending_work_items[k] is old(self.pending_work_items[k])))")
+i.inv("counts-only-grow", "forall(Ref('Future'), lambda f: G.fut_n_exc[f] >= old(G.fut_n_exc[f]))")
+i.inv("no-result-set", "G.fut_n_res == old(G.fut_n_res) and G.fut_res == old(G.fut_res)")
+i.variant("len(self.pending_work_items)")
+
+# ---------------------------------------------------------------- get_n_children_alive / shutdown_workers / join_executor_internals
+c = M.contract(f"{EMT}.get_n_children_alive", props=["C05"])
+c.param("self", T.Ref(EMT))
+c.returns(T.Int)
+c.ensures("alive/bounded-by-registered", "0 <= result and result <= len(self.processes)")
+c.ensures("alive/under-management-lock", "log_arg('acquire', 0, 0) is self.processes_management_lock and log_count('release') == 1")
+c.raises_only("alive/no-exception")
+c.modifies()
+
+SQC = "call:SimpleQueue.close"
+c = M.contract(f"{EMT}.shutdown_workers", props=["C05"])
+c.param("self", T.Ref(EMT))
+RELEASED = ("forall(Int, lambda k: implies(old(k in self.processes), G.sem_released[old(self.processes[k])._worker_exit_lock] >= "
+            "old(G.sem_released[old(self.processes[k])._worker_exit_lock]) + 1))")
+c.ensures("sentinels/never-more-than-registered-workers", "G.n_sentinels - old(G.n_sentinels) <= old(len(self.processes)) and G.n_sentinels >= old(G.n_sentinels)")
+c.ensures("sentinels/one-per-worker-unless-none-alive",
+          "G.n_sentinels - old(G.n_sentinels) == old(len(self.processes)) or "
+          "tail(log_count('call:_ExecutorManagerThread.get_n_children_alive') >= 1 and log_arg('call:_ExecutorManagerThread.get_n_children_alive', -1, 0) <= 0)")
+c.ensures("sentinels/every-exit-lock-released", RELEASED)
+c.at_call("mp.Queue.put", "never-a-blocking-put", "False")
+c.raises("sentinels/full-queue-after-cooldown", "queue.Full")
+c.raises_only("sentinels/only-queue-full")
+c.modifies("G.sem_released", "G.n_sentinels")
+c.assumes("A-atomic")
+i = M.invariant(f"{EMT}.shutdown_workers", 0, "for p in list(self.processes.values()):")
+i.inv("counts-visited", "n_children_to_stop == __i0")
+i.inv("visited-exit-locks-released", "forall(Ref('Process'), lambda q: implies(mem(__seen0, q), "
+      "G.sem_released[q._worker_exit_lock] >= old(G.sem_released[q._worker_exit_lock]) + 1))")
+i.inv("release-counts-only-grow", "forall(Ref('MPLock'), lambda l: G.sem_released[l] >= old(G.sem_released[l]))")
+i = M.invariant(f"{EMT}.shutdown_workers", 1, "while (")
+i.inv("sent-bounded", "0 <= n_sentinels_sent and n_sentinels_sent <= n_children_to_stop")
+i.inv("sent-is-ghost-count", "G.n_sentinels == old(G.n_sentinels) + n_sentinels_sent")
+i.inv("cooldown-positive", "cooldown_time > 0")
+i = M.invariant(f"{EMT}.shutdown_workers", 2, "for _ in range(n_children_to_stop - n_sentinels_sent):")
+i.inv("sent-advances-with-index", "n_sentinels_sent == at_entry(n_sentinels_sent) + __i2")
+i.inv("sent-is-ghost-count", "G.n_sentinels == old(G.n_sentinels) + n_sentinels_sent")
+i.inv("cooldown-positive", "cooldown_time > 0")
+
+c = M.contract(f"{EMT}.join_executor_internals", props=["C05", "C20"])
+c.param("self", T.Ref(EMT))
+ALL_JOINED = "forall(Int, lambda k: implies(old(k in self.processes), G.joined[old(self.processes[k])]))"
+c.ensures("join/closes-queues-and-wakeup-in-order",
+          "tail(True) and log_tags('acquire', 'release', 'loop:*') == ['call:_ExecutorManagerThread.shutdown_workers', 'cq_close', 'cq_join_thread', "
+          f"'{SQC}', 'call:_ThreadWakeup.close']")
+c.ensures("join/right-objects-closed",
+          "log_arg('cq_close', 0, 0) is self.call_queue and log_arg('cq_join_thread', 0, 0) is self.call_queue and "
+          f"log_arg('{SQC}', 0, 1) is self.result_queue and log_arg('call:_ThreadWakeup.close', 0, 1) is self.thread_wakeup")
+c.ensures("join/wakeup-closed-under-shutdown-lock",
+          "ordered('acquire', lambda l: l is self.shutdown_lock, 'call:_ThreadWakeup.close', lambda r, w: True) and "
+          "exists_event('acquire', lambda l: l is self.shutdown_lock)")
+c.ensures("join/no-worker-left-registered", PROCS_EMPTY)
+c.ensures("join/every-registered-worker-joined", ALL_JOINED)
+c.ensures("join/joined-only-grows", "forall(Ref('Process'), lambda q: implies(old(G.joined[q]), G.joined[q]))")
+c.raises("join/only-queue-full-from-sentinels", "queue.Full")
+c.raises_only("join/only-queue-full")
+c.modifies("contents(self.processes)", "G.joined", "G.sem_released", "G.n_sentinels", "self.thread_wakeup._closed", "G.pid_live")
+c.assumes("A-atomic")
+i = M.invariant(f"{EMT}.join_executor_internals", 0, "while True:")
+i.inv("removed-are-joined", "forall(Int, lambda k: implies(old(k in self.processes) and not (k in self.processes), G.joined[old(self.processes[k])]))")
+i.inv("remaining-are-original", "forall(Int, lambda k: implies(k in self.processes, old(k in self.processes) and self.processes[k] is old(self.processes[k])))")
+i.inv("joined-only-grows", "forall(Ref('Process'), lambda q: implies(old(G.joined[q]), G.joined[q]))")
